@@ -356,9 +356,15 @@ func (r *realm) onLeave(sess *wamp.Session, shutdown, killAll bool) {
 			delete(r.testaments, sess.ID)
 		}
 
-		// If realm is shutdown, do not bother to remove session from broker
-		// and dealer. They will be closed after sessions are closed.
-		if !shutdown {
+		// If realm is shutdown, remove the session from dealer and broker
+		// quietly, without meta events or replies to its peers: other session
+		// handlers may still be routing (a callee retrying a YIELD to this
+		// session, a PUBLISH in progress) and must not find a session whose
+		// peer is about to be closed.
+		if shutdown {
+			r.dealer.removeSessionQuiet(sess)
+			r.broker.removeSessionQuiet(sess)
+		} else {
 			r.dealer.removeSession(sess)
 			r.broker.removeSession(sess)
 		}
